@@ -87,8 +87,10 @@ Holds(c) ==
                              \/ R.multi[i].hit = (\E h \in Hits(V, o, d) : h[1] <= 2)
       [] c \in {"sdf-sign", "sdf-dist", "sdf-point", "sdf-normal"} -> V = {} \/ \A i \in 1..Len(R.sdf) : SdfOK(c, R.sdf[i])
       [] c = "contains" -> \A i \in 1..Len(R.contains) : ContainsOK(R.contains[i])
+      \* every ray asked again by four goroutines at once was answered as it was answered to one caller
+      [] c = "concurrent" -> R.concbad = 0
       [] OTHER -> TRUE
-Clauses == {"panic", "scan", "segment", "count", "hits", "first", "parity", "sphere", "sdf-sign", "sdf-dist", "sdf-point", "sdf-normal", "contains"}
+Clauses == {"panic", "scan", "segment", "count", "hits", "first", "parity", "sphere", "sdf-sign", "sdf-dist", "sdf-point", "sdf-normal", "contains", "concurrent"}
 Fails == {c \in Clauses : ~Holds(c)}
 GPcount == IF V = {} THEN 0 ELSE Cardinality({i \in 1..Len(R.rays) : GP(V, P3(R.rays[i].o), P3(R.rays[i].d))})
 
